@@ -16,6 +16,7 @@ import (
 	"github.com/idena-network/idena-go/blockchain/validation"
 	"github.com/idena-network/idena-go/common"
 	"github.com/idena-network/idena-go/core/appstate"
+	"github.com/idena-network/idena-go/core/mempool"
 	"github.com/idena-network/idena-go/core/state"
 	"github.com/idena-network/idena-go/stats/collector"
 	"pgregory.net/rapid"
@@ -546,6 +547,56 @@ func TestConcurrent(t *testing.T) {
 				t.Fatalf("%s was accepted (nil error, goroutine %d, node not syncing), was never included and is valid on every head since, but the pool lost it\n%s", txDesc(w, sb.tx), sb.g, ctx())
 			}
 			kept++
+		}
+
+		// ---- tx keeper: did its persist loop get to run (100 ms poll, then 20 s pause)? ----
+		if keeper {
+			evid.Count("conc.keeper.on")
+			if stretch {
+				evid.Count("conc.keeper.stretched_run")
+			}
+			if persistDuringRun {
+				evid.Count("conc.keeper.persisted_during_run")
+			}
+			persisted := persistDuringRun
+			if admitted > 0 {
+				for deadline := time.Now().Add(400 * time.Millisecond); !persisted && time.Now().Before(deadline); time.Sleep(5 * time.Millisecond) {
+					_, persisted = keptOnDisk(dataDir)
+				}
+			}
+			if persisted {
+				evid.Count("conc.keeper.persisted")
+				// a late report of the keeper's own goroutines belongs to this case
+				for _, rep := range newRaceReports() {
+					if rep.Harness {
+						atomic.AddInt64(&raceKnown, 1)
+						evid.Count("race_by_harness." + rep.Key)
+						continue
+					}
+					key := "c14.race." + rep.Key
+					if kf.Listed("C14", key) {
+						atomic.AddInt64(&raceKnown, 1)
+					} else {
+						atomic.AddInt64(&raceUnknown, 1)
+					}
+					evid.Count("race." + rep.Key)
+					if kf.Report(t, "C14", key, "data race between pool operations:\n%s", rep.Text) {
+						continue
+					}
+				}
+			}
+		}
+		nAsync := 0
+		for _, lst := range lists {
+			for _, o := range lst {
+				if o.kind == "asyncInbound" || o.kind == "asyncBatch" {
+					nAsync += len(o.txs)
+				}
+			}
+		}
+		evid.CountN("conc.async_submitted_txs", nAsync)
+		if nAsync > 0 {
+			evid.Count("conc.with_async_submissions")
 		}
 
 		// ---- evidence ----
